@@ -40,7 +40,7 @@ impl Check for C20 {
         "C20"
     }
     fn rule(&self) -> String {
-        "each scenario = operation {get hit/miss, touch hit/miss, set, put insert/existing} x front-end {plain, sharded, stacked depth 1-3 with plain/sharded levels, read-only depth 1-3} x hit level x checker on/off, executed on four fresh simulated filesystems whose directories (each shard, for sharded) are pre-populated with 0, 10, 100 and 2000 entries, maintenance scripted not to fire; and again with maintenance firing for the descriptor clauses. Oracle from the call trace and the simulated descriptor table: the multiset of call kinds is identical across the four sizes, a lookup makes <= 2 open attempts per cache directory, no opendir/readdir outside maintenance, peak descriptors+streams attributable to the call <= 2 (<= 3 with a checker), residual descriptors = 1 iff a handle is returned else 0, no lock primitive. Non-trivial = every scenario (four sizes compared); distinct = scenario signature".to_string()
+        "each scenario = operation {get hit/miss, touch hit/miss, set, put insert/existing} x front-end {plain, sharded, stacked depth 1-3 with plain/sharded levels, read-only depth 1-3} x hit level x checker on/off, executed on four fresh simulated filesystems whose directories (each shard, for sharded) are pre-populated with 0, 10, 100 and 2000 entries, maintenance scripted not to fire; and again with maintenance firing for the descriptor clauses; in a third of the write scenarios the first publication attempt (rename/link) fails with EIO/ENOSPC/ENOENT/EXDEV/EACCES so that the retry path runs on the populated directory. Oracle from the call trace and the simulated descriptor table: the multiset of call kinds is identical across the four sizes, a lookup makes <= 2 open attempts per cache directory, no opendir/readdir outside maintenance, peak descriptors+streams attributable to the call <= 2 (<= 3 with a checker), residual descriptors = 1 iff a handle is returned else 0, no lock primitive. Non-trivial = every scenario (four sizes compared); distinct = scenario signature".to_string()
     }
     fn runs(&self, tier: Tier) -> u64 {
         match tier {
@@ -61,11 +61,15 @@ impl Check for C20 {
         let also_lower_copy = tape.draw(2) == 1;
         let maintain = tape.draw(4) == 3;
         let auto_sync = tape.draw(2) == 0;
+        // fault dimension: the first publication attempt of a write fails, so
+        // that the retry path runs on a populated directory
+        let fail_first_pub = matches!(op, Op20::Set | Op20::PutInsert | Op20::PutExisting) && tape.draw(3) == 0;
+        let fail_errno = *tape.pick(&[libc::EIO, libc::ENOSPC, libc::ENOENT, libc::EXDEV, libc::EACCES]);
         let (kh, ks) = solve_key(tape, nshards, (0, 1));
         let in_secondary = tape.draw(2) == 1;
         let key = KeySpec { name: "thekey".into(), hash: kh, sec: ks };
         let sizes: Vec<usize> = if maintain { vec![0, 10, 100] } else { SIZES.to_vec() };
-        let desc = format!("front={} depth={} sharded_levels={:?} shards={} checker={:?} op={:?} hit_level={} lower_copy={} maintain={} auto_sync={} key_in_secondary={} {}", ["plain", "sharded", "stack", "readonly"][front as usize], depth, kinds, nshards, checker, op, hit_level, also_lower_copy, maintain, auto_sync, in_secondary, kn.describe());
+        let desc = format!("front={} depth={} sharded_levels={:?} shards={} checker={:?} op={:?} hit_level={} lower_copy={} maintain={} auto_sync={} key_in_secondary={} {}", ["plain", "sharded", "stack", "readonly"][front as usize], depth, kinds, nshards, checker, op, hit_level, also_lower_copy, maintain, auto_sync, in_secondary, kn.describe()) + &format!(" fail_first_publication={} ({})", fail_first_pub, fail_errno);
         let mut observations: Vec<Obs> = Vec::new();
         let mut total_steps = 0;
         let mut total_ns = 0;
@@ -114,11 +118,22 @@ impl Check for C20 {
                 let mut f = File::create(&src).expect("source");
                 f.write_all(&make_value("thekey", 2, 20)).expect("write");
             }
+            if fail_first_pub {
+                let mut armed = true;
+                w.sim.lock().injector = Some(Box::new(move |info, _t| {
+                    if armed && info.lib && matches!(info.kind, K::Rename | K::Link) {
+                        armed = false;
+                        Some(fail_errno)
+                    } else {
+                        None
+                    }
+                }));
+            }
             let base = w.sim.lock().procs[0].fds.len();
             let mark = w.trace_len();
             kismet_vfs::kernel::set_op(99);
             let mut returned: Option<File> = None;
-            let r: std::io::Result<String> = (|| {
+            let r: std::io::Result<String> = lib(|| {
                 let srcp = std::path::Path::new(&src);
                 Ok(match (&h, op) {
                     (Handle::Plain(c), Op20::GetHit | Op20::GetMiss) => {
@@ -149,7 +164,8 @@ impl Check for C20 {
                     (Handle::Stack(c), _) => c.put(key.key(), srcp).map(|_| "ok".to_string())?,
                     (Handle::ReadOnly(_), _) => "n/a".to_string(),
                 })
-            })();
+            });
+            w.sim.lock().injector = None;
             let after = w.sim.lock().procs[0].fds.len();
             let trace = w.trace_from(mark);
             let expect_hit = matches!(op, Op20::GetHit);
@@ -157,7 +173,7 @@ impl Check for C20 {
                 Ok(s) => s.clone(),
                 Err(e) => format!("Err({})", e),
             };
-            if r.is_err() {
+            if r.is_err() && !fail_first_pub {
                 out.violation = Some(Violation::new("op-error", format!("size {}: {} ({})", size, result, desc)));
             }
             if matches!(op, Op20::GetHit | Op20::GetMiss) && r.is_ok() && returned.is_some() != expect_hit {
@@ -237,7 +253,10 @@ impl Check for C20 {
             }
         }
         out.nontrivial = true;
-        out.sig = hash_str(&format!("{}|{}|{:?}|{:?}|{:?}|{}|{}|{}|{}|{}", front, depth, kinds, checker, op, hit_level, also_lower_copy, maintain, auto_sync, in_secondary));
+        out.sig = hash_str(&format!("{}|{}|{:?}|{:?}|{:?}|{}|{}|{}|{}|{}|{}|{}", front, depth, kinds, checker, op, hit_level, also_lower_copy, maintain, auto_sync, in_secondary, fail_first_pub, fail_errno));
+        if fail_first_pub {
+            out.count("fault:first_publication_attempt", 1);
+        }
         out.steps = total_steps;
         out.sim_ns = total_ns;
         out.count(if maintain { "scenarios_with_maintenance" } else { "scenarios_without_maintenance" }, 1);
